@@ -366,3 +366,125 @@ def check_full_scan(ctx, repo):
     ok = len(le) == 1 and isinstance(le[0].ops[0], ast.LtE) and src(le[0].comparators[0]) == f.params[2]
     ctx.check('C05.FULL-SCAN', ok, f, le[0] if le else f.node, 'two targets are friends when sep <= distance (separations do not exceed the linking length)',
               msg='the friend test is `%s`' % (src(le[0]) if le else '?'), construct='friend test')
+
+
+def _emptiness_test(t, what):
+    """True when test t says exactly 'the list `what` is not empty'."""
+    ts = src(t).replace(' ', '')
+    w = what.replace(' ', '')
+    return ts in ('len(%s)>0' % w, 'len(%s)!=0' % w, 'len(%s)>=1' % w, w, '0<len(%s)' % w, 'len(%s)' % w)
+
+
+def check_chunk_grid(ctx, repo, rule):
+    """Rules about chunks.__init__ / cosDecMin / friendsoffriends shared by C04 and C05."""
+    f = repo.func(SG, 'chunks.__init__')
+    fa = FA(f)
+    ctx.cover(f)
+    # ---- exact end points: the code tests decBounds[..] == +-90.0 and takes cos() of the end points, so they must BE decMin / decMax
+    eq90 = [c for c in walk_local(f.node) if isinstance(c, ast.Compare) and len(c.ops) == 1 and isinstance(c.ops[0], ast.Eq)
+            and 'decBounds' in src(c.left) and try_fold(c.comparators[0]) in (90.0, -90.0)]
+    builds = [st for st in walk_local(f.node) if isinstance(st, ast.Assign) and src(st.targets[0]) == 'self.decBounds']
+    ctx.need(builds, 'chunks.__init__: construction of decBounds not found')
+    b = builds[0]
+    exact = isinstance(b.value, ast.Call) and call_name(b.value) == 'linspace'
+    pins = [st for st in walk_local(f.node) if isinstance(st, ast.Assign) and isinstance(st.targets[0], ast.Subscript)
+            and src(st.targets[0].value) == 'self.decBounds' and st.lineno > b.lineno]
+    pinned = {src(st.targets[0].slice).replace(' ', ''): src(st.value) for st in pins}
+    hi_ok = exact or pinned.get('self.nDec') == 'decMax' or pinned.get('-1') == 'decMax'
+    lo_ok = exact or pinned.get('0') == 'decMin' or isinstance(b.value, ast.BinOp) and isinstance(b.value.op, ast.Add) and src(b.value.left) == 'decMin'
+    if eq90:
+        ctx.check(rule, hi_ok and lo_ok, f, b, 'the end points of decBounds are exactly decMin and decMax (the code compares them with +-90.0 and takes their cosine)',
+                  msg='decBounds is built as `%s`: its last element is decMin + (decMax - decMin)*n/n, which rounding can carry to 90.00000000000001 when decMax '
+                      'was clamped to 90; then `== 90.0` fails and cos() is negative, and spherematch / spheregroup raise "cosDecMin not positive" for valid input'
+                      % src(b.value)[:70], construct='decBounds end points not exact')
+    # ---- the number of RA cells of a slice is final before it is used to lay out that slice
+    loops = [n for n in walk_local(f.node) if isinstance(n, ast.For) and any(isinstance(st, ast.Expr) and 'self.raBounds.append' in src(st) for st in n.body)]
+    ctx.need(loops, 'chunks.__init__: slice loop not found')
+    lp = loops[0]
+    order = []
+    for st in lp.body:
+        for x in walk_local(st):
+            if isinstance(x, ast.Subscript) and src(x.value) == 'self.nRa':
+                order.append(('store' if isinstance(x.ctx, ast.Store) else 'load', st))
+            elif isinstance(x, ast.Call) and src(x.func) == 'self.nRa.append':
+                order.append(('store', st))
+    layout = [st for st in lp.body if isinstance(st, ast.Expr) and 'self.raBounds.append' in src(st)]
+    late = [st for k, st in order if k == 'store' and layout and st.lineno > layout[0].lineno]
+    ctx.check(rule, not late, f, late[0] if late else lp, 'nRa[i] is final before raBounds[i] is laid out with it',
+              msg='nRa[i] is changed (`%s`) after raBounds[i] has been built from the old value: the slice has more RA bounds than cells, '
+                  'points of that slice are looked up in cells that do not exist' % (src(late[0])[:50] if late else ''), construct='nRa changed after layout')
+    # ---- cosDecMin: the bound FARTHER from the equator
+    g = repo.func(SG, 'chunks.cosDecMin')
+    ctx.cover(g)
+    text = src(g.node)
+    two_sided = ('abs(' in text or 'np.abs(' in text or 'np.absolute(' in text or 'fabs' in text or 'min(' in text and text.count('cos(') >= 2)
+    one_sided = not two_sided and any(isinstance(c, ast.Call) and call_name(c) in ('max', 'min', 'amax', 'amin') for c in walk_local(g.node))
+    ctx.need(two_sided or one_sided or True, 'cosDecMin')
+    ctx.check(rule, two_sided, g, g.node, 'cosDecMin(i) takes the cosine of the slice edge with the larger |dec|',
+              msg='cosDecMin(i) does not compare the absolute values of the two edges: south of the equator it returns the cosine of the edge nearer '
+                  'the equator, the RA margin there is too small and pairs across cell edges are lost', construct='cosDecMin one-sided')
+    # ---- friendsoffriends visits every non-empty chunk
+    h = repo.func(SG, 'chunks.friendsoffriends')
+    ctx.cover(h)
+    calls = [c for c in walk_local(h.node) if isinstance(c, ast.Call) and src(c.func) == 'self.chunkfriendsoffriends']
+    ctx.need(calls, 'friendsoffriends: per-chunk grouping call not found')
+    c = calls[0]
+    conds = []
+    child = c
+    for a in ancestors(c):
+        if isinstance(a, ast.If):
+            conds.append(a.test)
+        if isinstance(a, ast.For):
+            continue
+    lst = src(c.args[2]) if len(c.args) > 2 else 'self.chunkList[i][j]'
+    extra = [t for t in conds if not _emptiness_test(t, lst)]
+    ctx.check(rule, not extra, h, extra[0] if extra else c, 'every non-empty chunk is grouped (guards: %s)' % [src(t) for t in conds],
+              msg='friendsoffriends skips a chunk under `%s`: a chunk whose members are all labelled already can be the only place where two earlier '
+                  'groups meet, so linked points end up in different groups' % (src(extra[0])[:80] if extra else ''), construct='chunk skipped: ' + (src(extra[0])[:60] if extra else ''))
+
+
+def check_append_only(ctx, repo, rule):
+    """spherematch: between the candidate loop and the distance sort the pair lists only grow."""
+    f = repo.func(SG, 'spherematch')
+    ctx.cover(f)
+    lists = set()
+    for st in walk_local(f.node):
+        if isinstance(st, ast.Assign) and isinstance(st.value, ast.Call) and call_name(st.value) == 'list' and not st.value.args:
+            for t in st.targets:
+                if isinstance(t, ast.Name):
+                    lists.add(t.id)
+    apps = {}
+    for c in walk_local(f.node):
+        if isinstance(c, ast.Call) and isinstance(c.func, ast.Attribute) and c.func.attr in ('append', 'extend') and isinstance(c.func.value, ast.Name) \
+                and c.func.value.id in lists:
+            apps.setdefault(c.func.value.id, []).append(c)
+    pair_lists = {n for n, cs in apps.items() if any(any(isinstance(a, ast.For) for a in ancestors(c)) for c in cs)}
+    ctx.need(len(pair_lists) >= 3, 'spherematch: pair lists (match1, match2, distance12) not found')
+    cand_loops = set()
+    for n_ in pair_lists:
+        for c in apps[n_]:
+            fors = [a for a in ancestors(c) if isinstance(a, ast.For)]
+            if fors:
+                cand_loops.add(id(fors[-1]))          # outermost loop around the append: the candidate loop
+    bad = []
+    for st in walk_local(f.node):
+        if not any(isinstance(a, ast.For) and id(a) in cand_loops for a in ancestors(st)):
+            continue
+        if isinstance(st, ast.Delete):
+            for t in st.targets:
+                if any(isinstance(x, ast.Name) and x.id in pair_lists for x in ast.walk(t)):
+                    bad.append(st)
+        elif isinstance(st, (ast.Assign, ast.AugAssign)):
+            for t in (st.targets if isinstance(st, ast.Assign) else [st.target]):
+                if isinstance(t, ast.Subscript) and isinstance(t.value, ast.Name) and t.value.id in pair_lists:
+                    bad.append(st)
+                elif isinstance(t, ast.Name) and t.id in pair_lists:
+                    bad.append(st)
+        elif isinstance(st, ast.Expr) and isinstance(st.value, ast.Call) and isinstance(st.value.func, ast.Attribute) \
+                and st.value.func.attr in ('pop', 'remove', 'clear', 'insert', 'sort', 'reverse') and isinstance(st.value.func.value, ast.Name) \
+                and st.value.func.value.id in pair_lists:
+            bad.append(st)
+    ctx.check(rule, not bad, f, bad[0] if bad else f.node, 'the candidate loop only appends to %s' % sorted(pair_lists),
+              msg='the candidate loop removes or overwrites entries of the pair lists (`%s`) before the global distance sort: a pair discarded here '
+                  'cannot be the fallback partner when a closer point claims the first choice (maxmatch > 0), or is simply lost (maxmatch = 0)'
+                  % (src(bad[0])[:60] if bad else ''), construct='pair list shrunk in the candidate loop: ' + (src(bad[0])[:50] if bad else ''))
